@@ -1428,8 +1428,20 @@ func (w *world) scripted(prop string, sc int, rng *mrand.Rand) {
 				w.plain("/before-rotation", reqSpec{}, rng)
 				w.snapshot()
 				w.rotateKeys(rng)
+				outage := sc/6%2 == 0 // (no refresh token in this variant) ... and the provider's key endpoint is down when the instance, its key set having run out, asks for the new one
+				if outage {
+					w.p.mu.Lock()
+					w.p.jwksFail = true
+					w.p.mu.Unlock()
+					T.stat("handler.key-rotation-with-key-endpoint-outage")
+				}
 				w.plain("/after-rotation", reqSpec{note: "the session's ID token is signed with a key the provider has withdrawn"}, rng)
 				w.plain("/after-rotation-2", reqSpec{}, rng)
+				if outage {
+					w.p.mu.Lock()
+					w.p.jwksFail = false
+					w.p.mu.Unlock()
+				}
 			}
 		}
 		if sc%2 == 0 {
